@@ -37,6 +37,17 @@ Definition c18_drain_sends_ok (cfg : vconfig) (st : fstep) : bool :=
   then nonempty (f_segs (fs_post st))
   else true.
 
+(* the same clause as the sentence of the property: data buffered => something is segmented.
+   After a completed poll with the peer's FIN not seen and the peer's window open, a non-empty
+   send buffer implies a non-empty segment table. *)
+Definition c18_buffered_segmented_ok (cfg : vconfig) (st : fstep) : bool :=
+  if c18_completed st
+     && negb (is_remote_fin_or_later (f_state (fs_post st)))
+     && (0 <? f_last_remote_window (fs_post st))
+     && (0 <? f_tx_len (fs_post st))
+  then nonempty (f_segs (fs_post st))
+  else true.
+
 (* the guard of c18_nagle_ok, as an invariant: every segment lies below the next-byte offset *)
 Definition c18_pre_ok (cfg : vconfig) (st : fstep) : bool :=
   c18_pre (fs_pre st) && c18_pre (fs_post st).
